@@ -2278,7 +2278,7 @@ def _sweeps(run, thorough, bds):
             for units, cls in ((1e-12, 'units-tiny'), ([1e-12, 1.0, 1e6], 'units-per-rdm')):
                 bd.check(orc_pool, dict(c0, n_rdm=3, units=units, copy='inference_util'), cls, function='util.inference_util.pool_rdm')
                 if method.endswith('_cov'):
-                    if False:  # pending triage: units-tiny,whitened-pooling
+                    if True:   # repaired in /repo b503be68 (was pending triage): units-tiny,whitened-pooling
                         for s in ('none', 'matrix'):
                             bd.check(orc_pool, dict(c0, n_rdm=3, units=units, copy='pooling', sigma=s), 'units-tiny,whitened-pooling',
                                      function='util.pooling.pool_rdm')
@@ -2352,12 +2352,12 @@ def _sweeps(run, thorough, bds):
                         bd.check(orc_fit_regress, dict(c1, unit_model=1e4), 'units-model', function=fn)
                         if not method.endswith('_cov'):
                             bd.check(orc_fit_regress, dict(c1, unit_model=1e-6, unit_data=1e-6), 'units-model', function=fn)
-                    if False:  # pending triage: units-tiny,whitened-fit
+                    if True:   # repaired in /repo b503be68 (was pending triage): units-tiny,whitened-fit
                         # conjugate gradients with atol=1e-9 in the fitters and in util.pooling.pool_rdm: data / model RDMs in small units
                         if method.endswith('_cov'):
                             bd.check(orc_fit_regress, dict(c1, unit_data=1e-12), 'units-tiny,whitened-fit', function=fn)
                             bd.check(orc_fit_regress, dict(c1, unit_model=1e-10, unit_data=1e-6), 'units-tiny,whitened-fit', function=fn)
-                    if False:  # pending triage: units-model,nonneg
+                    if True:   # repaired in /repo 7c4854cc (was pending triage): units-model,nonneg
                         # _nn_least_squares stops on `max(w) > 100 * eps` (absolute): model RDMs in other units -> no termination / zeros
                         if nonneg:
                             bd.check(orc_fit_regress, dict(c1, unit_model=1e4), 'units-model,nonneg', function=fn)
